@@ -258,6 +258,10 @@ class Daemon:
             self.huge_i = getattr(self, "huge_i", 0) + 1
             hdr = [len(payload) + 5, (1 << 28) + 1, 1 << 31, 0xFFFFFFFF, (1 << 24) + 7][self.huge_i % 5]
             data = struct.pack("!L", hdr) + payload
+        elif sent > 100:
+            # the complete request followed, in the same write, by the beginning of a second frame
+            k = sent - 100
+            data = frame + (frame[:k] if k <= 4 else frame[: 4 + len(payload) // 2])
         elif sent >= L:
             data = frame
         elif sent <= 4:
@@ -568,7 +572,8 @@ def main(argv: list[str]) -> int:
     states += r.distinct; transitions += r.generated
     cov["DmypyServe"] = dict(coverage_summary(r), states=r.distinct, transitions=r.generated)
     mut = {}
-    for m, inv in (("CatchReceiveError", "Alive"), ("ResetOnAccept", "Intact"), ("CatchSendError", "Alive")):
+    for m, inv in (("CatchReceiveError", "Alive"), ("ResetOnAccept", "Intact"), ("ResetOnEof", "Intact"),
+                   ("CatchSendError", "Alive")):
         rm = tlc("MC_DmypyServe", "Mut_DmypyServe_%s.cfg" % m, coverage=False)
         mut[m] = rm.violated
         if not rm.violated:
@@ -633,7 +638,11 @@ def main(argv: list[str]) -> int:
         # all single-connection behaviours + a seeded sample of the two-connection ones
         singles = [x for x in no_stop if sum(1 for e in x if e["ev"] == "conn") == 1]
         doubles = [x for x in no_stop if x not in singles]
-        chosen = singles + doubles[:260] + with_stop[:10]
+        # a client that writes bytes after its complete request, followed by a well-behaved one: all of them
+        trail2 = [x for x in doubles if any(e["ev"] == "conn" and e["sent"] > 100 for e in x[:-1])
+                  and x[-1]["ev"] == "conn" and x[-1]["sent"] == 6 and x[-1]["waits"] and x[-1]["cls"] in ("status", "check")]
+        doubles = [x for x in doubles if x not in trail2]
+        chosen = singles + doubles[:260] + trail2[:64] + with_stop[:10]
     else:
         chosen = no_stop + with_stop[:120]
     expected_check = learn_expected(root)
